@@ -762,8 +762,14 @@ INVARIANT_PAIRS = [
     (CR + "credential::linked_verifiable_presentation_service::LinkedVerifiablePresentationService::verifiable_presentation_urls",
      CR + "credential::linked_verifiable_presentation_service::LinkedVerifiablePresentationService::check_structure",
      (("field", ("param", "self"), "0"), ("param", "$0"))),
+] + [
+    # IntegrityMetadata: the accessors split the stored string at '-' and unwrap segment 1 (and its base64 decoding); TryFrom<String> is the
+    # only constructor.  Decided over the split-stream model: seg(s, '-', k) / hasseg(s, '-', k) mean the same in split('-'), splitn(3, '-')
+    # and split_once('-'), so "the validator decoded segment 1 ✓" contradicts "the accessor's decode of segment 1 failed" term for term.
+    (INT + acc_, "<" + INT[:-2] + " as core::convert::TryFrom<alloc::string::String>>::try_from", (("field", ("param", "self"), "0"), ("param", "$0")))
+    for acc_ in ("alg", "digest", "digest_bytes")
 ]
-INV_OPAQUE = r"Service::(service_endpoint|type_)$|::get$|url_only_includes_origin$|Url::scheme$|::scheme$|::is_empty$|decode_b64_json$|::method_id$|::method$"
+INV_OPAQUE = r"BaseEncoding::decode$|Service::(service_endpoint|type_)$|::get$|url_only_includes_origin$|Url::scheme$|::scheme$|::is_empty$|decode_b64_json$|::method_id$|::method$"
 
 
 def _subst(t, a, b):
@@ -788,8 +794,10 @@ def check_accessor_invariants(F, r2):
         if not (r2.anchor(F.hir(acc), acc) and r2.anchor(F.hir(val), val)):
             continue
         try:
-            ap = SY.Evaluator(F, opaque=INV_OPAQUE, inline_depth=3).explore(acc)
-            vp = SY.Evaluator(F, opaque=INV_OPAQUE, inline_depth=3).explore(val)
+            ea, evv = SY.Evaluator(F, opaque=INV_OPAQUE, inline_depth=3), SY.Evaluator(F, opaque=INV_OPAQUE, inline_depth=3)
+            ea.split_streams = evv.split_streams = True
+            ap = ea.explore(acc)
+            vp = evv.explore(val)
         except (SY.Abort, SY.TooManyPaths) as e:
             r2.fail((acc, "not-evaluable"), "%s / %s could not be evaluated: %s" % (short(acc), short(val), e))
             continue
@@ -856,16 +864,9 @@ def check_gates(F, R):
                 # path decoded the method id as a JWK ✓ — the very oracle call `jwk()` later `expect`s
             elif gname == "IntegrityMetadata":
                 want = "<" + adt + " as core::convert::TryFrom<alloc::string::String>>::try_from"
-                if r2.require(fn == want, (adt, "ungated-construction", fn), "%s is constructed in %s" % (short(adt), fn)):
-                    # the digest segment must have been decoded successfully on every success exit
-                    h = F.hir(fn)
-                    tree, infos = __import__("rulelib").exit_infos(h)
-                    for e in infos:
-                        if __import__("rulelib").is_success_exit(e):
-                            tried = [H.show(t) for t in e.tried]
-                            good = any("decode(" in t and "ok_or_else" in t and "next()" in t for t in tried)
-                            r2.require(good, (adt, "digest-not-validated"), "IntegrityMetadata::try_from reaches Ok without `next().and_then(decode).ok_or_else(..)?`",
-                                       e.node.get("sp"))
+                r2.require(fn == want, (adt, "ungated-construction", fn), "%s is constructed in %s" % (short(adt), fn))
+                # what the constructor establishes (a second '-'-segment that base64-decodes) is decided together with the accessors that
+                # unwrap it, on the split-stream model (check_accessor_invariants)
             else:
                 tf = "<" + adt + " as core::convert::TryFrom<identity_document::service::service::Service>>::try_from"
                 new = adt + "::new"
